@@ -552,7 +552,7 @@ def run(ctx) -> None:
                     if ctx.mine():
                         arun(fault_send_case(ctx, {"kind": "fault-send", "version": version, "dest": dest, "fields": fields,
                                                    "buffered": buffered}))
-        shapes = [(4, 8, 20), (2, 30, 10), (1, 1, 57)] + ([(10, 20, 25), (3, 100, 20)] if not ctx.quick else [])
+        shapes = [(4, 8, 20), (2, 30, 10), (1, 1, 57), (7, 10, 30)] + ([(10, 20, 25), (3, 100, 20)] if not ctx.quick else [])
         for i, (version, shape) in enumerate(itertools.product(("2.0", "2.2"), shapes)):
             if ctx.mine(i):
                 arun(mass_park_case(ctx, {"kind": "mass-park", "version": version, "shape": list(shape)}))
